@@ -23,6 +23,17 @@ CLAIMS = {
                 'bytes; every reader branch consumes exactly field.size bytes.',
         not_decided='that the persisted set is sufficient for bit-wise continuation of every integrator; padding bytes; the continuation itself (runtime)',
         design_ref='3/C05'),
+    'C08': dict(
+        module='c08', level='other',
+        technique='structural/dominance checks on the exit state machine and the integrate driver (clang AST), operator-sequence time accounting, status-table agreement C enum vs Python ast',
+        decided='per integrator the increments of r->t over a step sum to the step done and dt_last_done records it; in reb_check_exit every change of r->dt '
+                'is under exact_finish_time==1, preceded by a synchronise and equal to tmax-t, and the first shrink stores the previous full step (guarded by dt_last_done!=0); '
+                'the overshoot tests are direction-aware; reb_simulation_integrate_raw resets dt_last_done and initialises last_full_dt before the loop, only flips the sign of dt '
+                'when tmax differs from t, evaluates the heartbeat before the first step and after every step, loops on reb_check_exit<0, synchronises after the loop and restores '
+                'r->dt from last_full_dt under exact_finish_time; step-size clamps (min_dt/max_dt) keep the sign of the step; every positive REB_STATUS is mapped by '
+                'Simulation.integrate to the exception of that meaning and the library writers of USER/COLLISION/ESCAPE/ENCOUNTER set their own status.',
+        not_decided='the 1e-12 finishing tolerance and floating-point coincidences of (t,dt,tmax); step counts; bitwise equality of split integrations; first-boundary semantics of exit conditions',
+        design_ref='3/C08'),
     'C09': dict(
         module='c09', level='other',
         technique='operator-word equivalence: sequences extracted by constant propagation from part1/part2/synchronize, compared after free reduction; ordering/pairing checks on the synchronize functions',
